@@ -46,7 +46,8 @@ PROBES = ['injected-behind-starttls', 'injected-behind-220',
           'auth-challenge-path', 'auth-cancel', 'auth-bad-base64',
           'auth-noarg', 'auth-unknown-mech', 'auth-in-transaction',
           'auth-after-success', 'auth-before-ehlo', 'unicode-credentials',
-          'client-injection', 'tls-immediately']
+          'client-injection', 'tls-immediately', 'auth-validator-raised',
+          'bystander-session']
 STATES_MEASURE = 'distinct (kind, encrypted, identity, transaction, authed) at each AUTH/STARTTLS'
 STEP_CAP = 200000
 
@@ -90,7 +91,7 @@ def generate(seed, tier='quick'):
         scn['cfg'] = {'tls': tls != 'none', 'tls_immediately': tls ==
                       'immediate', 'auth': True,
                       'verdicts': {'auth': [rng.choice([None, None, '535',
-                                                        '454'])
+                                                        '454', 'raise-attr'])
                                             for _ in range(4)]}}
         scn['tls_mode'] = tls
         steps = []
@@ -452,6 +453,19 @@ def _auth(world, scn, result):
                 if closed(r, 'AUTH cancel'):
                     break
             final = r
+        if final[0] in ('421', '221') and \
+                any(c[0] == 'v_auth' for c in trace.calls[mark:]) and \
+                (verd[nverd[0]] if nverd[0] < len(verd) else None) == \
+                'raise-attr':
+            # the application's own validator raised: ending the session
+            # with 421 is the server's answer to that; it must not have
+            # marked the session authenticated
+            world.probe('auth-validator-raised')
+            if any(c[0] == 'authattr' and c[1] for c in trace.calls[mark:]):
+                _bad(result, 'C08/authed-without-accept', 'the application\'s '
+                     'AUTH validator raised, yet the session was marked '
+                     'authenticated')
+            break
         if final[0] in ('421', '221'):
             _bad(result, 'C08/auth-malformed-kills-session',
                  'the server answered %r with %s and ended the session; '
@@ -501,6 +515,13 @@ def _auth(world, scn, result):
             v = verd[nverd[0]] if nverd[0] < len(verd) else None
             nverd[0] += 1
             want = v or '235'
+            if v == 'raise-attr':
+                world.probe('auth-validator-raised')
+                if final[0] == '235' or st['authed']:
+                    _bad(result, 'C08/authed-without-accept',
+                         'the application\'s AUTH validator raised an '
+                         'exception, yet the reply was %s' % final[0])
+                break
             if final[0] != want:
                 _bad(result, 'C08/auth-verdict', 'application verdict %s, '
                      'reply %s' % (want, final[0]))
